@@ -24,6 +24,8 @@ func main() {
 		genC15(*out, *tier, *seed)
 	case "C01":
 		genC01(*out, *tier, *seed)
+	case "C02":
+		genC02(*out, *tier, *seed)
 	case "C03":
 		genC03(*out, *tier, *seed)
 	case "C07":
@@ -36,6 +38,8 @@ func main() {
 		genC13(*out, *tier, *seed)
 	case "C14":
 		genC14(*out, *tier, *seed)
+	case "C17":
+		genC17(*out, *tier, *seed)
 	case "C18":
 		genC18(*out, *tier, *seed)
 	default:
